@@ -7,10 +7,10 @@ func extractSignals(out string) {
 	l := &leanFile{ns: "Signals"}
 	fp := load("bus/proxy.go")
 	calls := []string{"Subscribe", "State", "RegisterEvent", "UnregisterEvent", "cancel", "subscriptionLock", "Lock", "Unlock", "Int",
-		"MakeHandler", "RemoveHandler", "removeSignalUser", "addSignalUser", "replyEvent", "append", "Send", "SendReply", "SendError"}
+		"MakeHandler", "RemoveHandler", "removeSignalUser", "addSignalUser", "replyEvent", "append", "Send", "SendReply", "SendError", "sendTerminate"}
 	l.strList("subscribeIDFlow", flowTokens(mustFunc(fp, "bus/proxy.go", "proxy", "SubscribeID"), "p", []string{"client"}, calls))
 	fs := load("bus/signal.go")
-	for _, fn := range []string{"addSignalUser", "removeSignalUser", "UpdateSignal", "replyEvent"} {
+	for _, fn := range []string{"addSignalUser", "removeSignalUser", "UpdateSignal", "replyEvent", "OnTerminate"} {
 		l.strList(fn+"Flow", flowTokens(mustFunc(fs, "bus/signal.go", "*signalHandler", fn), "o", []string{"signals"}, calls))
 	}
 	fc := load("bus/cache.go")
